@@ -69,11 +69,18 @@ func (c *ExecuteCtx) SetFieldResult(name string, value any) {
 	c.FieldCaches[name] = value
 }
 
+// chunkCacheKey identifies the results of a named field on the chunk that
+// starts at key. The length of the name keeps (name, key) pairs apart whose
+// plain concatenations are equal: ("a-k", "1") and ("a", "k-1").
+func chunkCacheKey(name string, key []byte) string {
+	return fmt.Sprintf("%d:%s-%s", len(name), name, string(key))
+}
+
 func (c *ExecuteCtx) GetChunkFieldResult(name string, key []byte) ([]any, bool) {
 	if !c.EnableCache {
 		return nil, false
 	}
-	ckey := fmt.Sprintf("%s-%s", name, string(key))
+	ckey := chunkCacheKey(name, key)
 	if chunk, have := c.FieldChunkKeyCaches[ckey]; have {
 		return chunk, true
 	}
@@ -99,7 +106,7 @@ func (c *ExecuteCtx) SetChunkFieldResult(name string, key []byte, chunk []any) {
 	if !c.EnableCache {
 		return
 	}
-	ckey := fmt.Sprintf("%s-%s", name, string(key))
+	ckey := chunkCacheKey(name, key)
 	if _, have := c.FieldChunkKeyCaches[ckey]; have {
 		return
 	}
@@ -161,7 +168,7 @@ func (c *ExecuteCtx) BindChunkCache(chunk []KVPair) {
 		if len(v) != len(chunk) {
 			continue
 		}
-		ckey := fmt.Sprintf("%s-%s", name, string(chunk[0].Key))
+		ckey := chunkCacheKey(name, chunk[0].Key)
 		c.FieldChunkKeyCaches[ckey] = v
 	}
 }
